@@ -206,8 +206,9 @@ def jobs(tier, seed):
     ]
     if tier == 'quick':
         strs = []          # string-valued mappings diffed twice exceed the quick budget by far (measured); thorough only
-    for name, A, B_ in strs[:1]:
-        out.append(dict(fam=name, A=A, B=B_, dict='auto', list='on', weight=40, alpha=2, kalpha=4, split_depth=30, budget=2400))
+    # measured: even the smallest string-valued mapping pair (DSc, 2+2 concrete unshared keys, 2-letter values over a 2-letter
+    # alphabet), diffed twice per path, does not exhaust within 55 minutes on 16 cores -> not run in either tier; the state-leak
+    # class of defects (seed C07) is therefore only covered for scalar-valued documents
     return out
 
 
